@@ -240,8 +240,13 @@ def binaryRule (ueq : UnitV K → UnitV K → Bool) (pre : Prefixes K) (t : Lut 
   | .difference => (differenceUnits ueq pre t u0 (some u1)).map fun p => (p.1, some p.2)
   | .comparison | .withoutUnit => .ok (1, none)
   | .arctan2 => .ok (1, some UnitV.dimensionless)
-  -- `_floor_divide_units`: a pure number (the dispatcher has rescaled the divisor)
-  | .floorDivide => .ok (1, some UnitV.dimensionless)
+  -- `_floor_divide_units`: `unit1 / unit2` is executed for its refusals (offset scales, logarithmic
+  -- units — exactly what true division refuses), then a pure number is returned (the dispatcher
+  -- has rescaled the divisor)
+  | .floorDivide =>
+    match u0.div u1 with
+    | .error e => .error e
+    | .ok _ => .ok (1, some UnitV.dimensionless)
   | .passthrough => .ok (1, some u0)
   | .multiply => (multiplyUnits pre t u0 u1).map fun p => (p.1, some p.2)
   | .divide => (divideUnits pre t u0 u1).map fun p => (p.1, some p.2)
